@@ -396,6 +396,29 @@ def run(ctx):
         tight["accepted"] += 1
         if not refres[which]["accept"] or r.get("calls") != refres[which].get("calls"):
             tight_bad.append((t, which, j, r, "groups differently from `%s`: %s vs %s" % (which, json.dumps(r.get("calls"))[:200], json.dumps(refres[which].get("calls"))[:200])))
+    # ---- compound assignments: `r op= e` is `r = r op (e)` whatever operators e contains (the right-hand side is one operand)
+    cjobs2, cmeta2 = [], []
+    ccalls = [{"fn": "f", "args": {"r": x, "a": y, "b": z}} for x, y, z in ((100, 7, 3), (-20, 5, 9), (64, 2, 4), (9, 9, 1))]
+    for aop in ("+", "-", "*", "/"):
+        for o2 in ("+", "-", "*", "/", "%", "<"):
+            for rhs in ("a %s b" % o2, "(a %s b)" % o2, "a %s b %s a" % (o2, o2)):
+                for ty in ("int", "float"):
+                    if ty == "float" and o2 in ("%", "<"):
+                        continue
+                    mk = lambda stmt: "export function f(%s r, %s a, %s b) -> %s { %s return r; }" % (ty, ty, ty, ty, stmt)
+                    cc = ccalls if ty == "int" else [{"fn": c["fn"], "args": {k_: float(v_) + 0.5 for k_, v_ in c["args"].items()}} for c in ccalls]
+                    cjobs2.append(vmcases.job(mk("r %s= %s;" % (aop, rhs)), cc)); cjobs2.append(vmcases.job(mk("r = r %s (%s);" % (aop, rhs)), cc)); cmeta2.append((aop, rhs, ty))
+    cres2 = ctx.run_impl("compile_impl.py", cjobs2, nworkers=16)
+    compound_bad, compound = [], {"pairs": len(cmeta2), "compared": 0}
+    for n_, (aop, rhs, ty) in enumerate(cmeta2):
+        ra, rb = cres2[2 * n_], cres2[2 * n_ + 1]
+        if ra["accept"] != rb["accept"]:
+            compound_bad.append((cjobs2[2 * n_], ra, rb, "accepted / rejected differently from the expanded form")); continue
+        if not ra["accept"]:
+            continue
+        compound["compared"] += 1
+        if ra.get("calls") != rb.get("calls"):
+            compound_bad.append((cjobs2[2 * n_], ra, rb, "result differs from `r = r %s (%s)`" % (aop, rhs)))
     blocks, vmeta, rejected = [], [], 0
     for k, ((kind, items), j, r) in enumerate(zip(vcases, vjobs, vres)):
         if not r["accept"] or "ir" not in r:
@@ -462,7 +485,12 @@ def run(ctx):
     ctx.extra["lexer_cases"] = {"texts": len(llines), "layout": sum(1 for m in lmeta2 if m[0] == "layout"), "adjacent": sum(1 for m in lmeta2 if m[0] == "adjacent"), "differ": len(lbad)}
     ctx.extra["value_cases"] = {"run": len(blocks), "rejected_by_typing": rejected, "spec_skipped": sum(1 for c in vcodes if c is not None and c & 8)}
     ctx.extra["tight_minus_cases"] = tight
-    if tight_bad:
+    ctx.extra["compound_assignment_cases"] = compound
+    if compound_bad:
+        j, ra, rb, why = compound_bad[0]
+        ctx.violation("failing-input", {"what": "a compound assignment does not group its right-hand side as one operand", "source": j["src"], "calls": j["calls"],
+                                        "observed": ra.get("calls"), "expanded_form_gives": rb.get("calls"), "why": why, "count": len(compound_bad)})
+    elif tight_bad:
         t, which, j, r, why = tight_bad[0]
         ctx.violation("failing-input", {"what": "an accepted expression with a minus written tight against a literal does not group like the same tokens spaced out", "source": j["src"],
                                         "reference_layout": which, "calls": j["calls"], "observed": r.get("calls"), "why": why, "count": len(tight_bad)})
